@@ -45,6 +45,10 @@ VARIABLES
                 \* lasts until the node is re-executed
     spSeen,     \* projections that were stale-by-KF_PBP at some point of this epoch
     kfFw,       \* firewalls implicated in a KF_TFC root in this epoch
+    lagFw,      \* firewalls implicated in a KF_TFC_LAG root in this epoch
+    ranAt,      \* node -> index of the event of its last complete run
+    verAt,      \* node -> index of the event where it was last handed out
+                \* (to the user or to an executor) or executed
     bpSkip,     \* Fw/Pj nodes whose last value change was not followed by
                 \* backward projection propagation (KF_PBP call sites)
     armed,      \* node whose executor is armed to panic (None = none)
@@ -56,7 +60,7 @@ VARIABLES
 
 obsVars == <<prog, inputs, pend, insess, refreshing, world, sample, pendSample,
              epoch, live, snap, lastRun, ran, running, tainted, outLast, outPrev,
-             kfTaint, nested, topDone, bpSkip, spSeen, kfFw, kfHard, histIn, crashed,
+             kfTaint, nested, topDone, bpSkip, spSeen, kfFw, kfHard, lagFw, ranAt, verAt, histIn, crashed,
              armed, fired,
              viol, stats>>
 
@@ -94,6 +98,9 @@ InitFor(p) ==
     /\ spSeen = {}
     /\ kfFw = {}
     /\ kfHard = [n \in 1..Len(p.nodes) |-> ""]
+    /\ lagFw = {}
+    /\ ranAt = [n \in 1..Len(p.nodes) |-> 0]
+    /\ verAt = [n \in 1..Len(p.nodes) |-> 0]
     /\ histIn = <<>>
     /\ crashed = FALSE
     /\ armed = None
@@ -170,21 +177,48 @@ Inherited(d) ==
 (* firewall it also depends on.                                            *)
 KfTfcEpoch(d) == d \notin ran /\ TransDeps(d) \cap kfFw # {}
 
+(* KF_TFC_LAG: the set of transitive firewall callees recorded for a node  *)
+(* X is brought up to date only when X itself is re-verified.  If a node y *)
+(* below X was re-executed after X was last verified and now reaches a     *)
+(* firewall f (through the dependencies it read), f is missing from the    *)
+(* set recorded at X until X is verified again: a user-level request of X  *)
+(* does not repair f first and hands out X's old value although f has a    *)
+(* pending change.                                                         *)
+DynDeps(x) == IF lastRun[x].has THEN {lastRun[x].reads[i][1] : i \in 1..Len(lastRun[x].reads)}
+              ELSE StaticDeps(prog, x)
+RECURSIVE DynBelow(_, _)
+DynBelow(frontier, seen) ==
+    LET nxt == (UNION {DynDeps(x) : x \in frontier}) \ seen
+    IN  IF nxt = {} THEN seen ELSE DynBelow(nxt, seen \cup nxt)
+DynClosure(n) == DynBelow({n}, {})
+LagFirewalls(x, val) ==
+    UNION {(DynClosure(y) \cup {y}) \cap PendingFirewalls(val) :
+           y \in {z \in DynClosure(x) : ranAt[z] > verAt[x]}}
+KfTfcLag(x, val) ==
+    /\ lastRun[x].has /\ x \notin ran
+    /\ LagFirewalls(x, val) # {}
+(* d was verified unchanged in an operation that met a KF_TFC_LAG root     *)
+KfLagEpoch(d) == d \notin ran /\ TransDeps(d) \cap lagFw # {}
+
 KfOf(d, val) ==
     IF Taint(d) # "" THEN Taint(d)
     ELSE IF KfTfc(d, val) THEN "KF_TFC"
     ELSE IF KfPbp(d) THEN "KF_PBP"
     ELSE IF KfTfcEpoch(d) THEN "KF_TFC"
-    ELSE Inherited(d)
+    ELSE IF Inherited(d) # "" THEN Inherited(d)
+    ELSE IF KfLagEpoch(d) THEN "KF_TFC_LAG"
+    ELSE ""
 
 (* ... and of a stale value handed to the user.  KF_TFC never applies to a *)
 (* user-level request directly (user-level callers do repair transitive    *)
 (* firewall callees): only through a node tainted earlier in the epoch.    *)
-KfOfUser(d) ==
+KfOfUser(d, val) ==
     IF Taint(d) # "" THEN Taint(d)
     ELSE IF KfPbp(d) THEN "KF_PBP"
     ELSE IF KfTfcEpoch(d) THEN "KF_TFC"
-    ELSE Inherited(d)
+    ELSE IF Inherited(d) # "" THEN Inherited(d)
+    ELSE IF KfTfcLag(d, val) \/ KfLagEpoch(d) THEN "KF_TFC_LAG"
+    ELSE ""
 
 (* KF_BP: backward projection propagation re-executes a projection         *)
 (* unconditionally when a firewall/projection it read was re-run in this   *)
@@ -204,7 +238,7 @@ Bump(f) == [stats EXCEPT ![f] = @ + 1]
 sessVars == <<inputs, pend, insess, refreshing, sample, pendSample, epoch>>
 rdrVars  == <<live, snap>>
 runVars  == <<lastRun, ran, running, tainted, outLast, outPrev>>
-kfVars   == <<kfTaint, nested, topDone, bpSkip, spSeen, kfFw, kfHard>>
+kfVars   == <<kfTaint, nested, topDone, bpSkip, spSeen, kfFw, kfHard, lagFw, ranAt, verAt>>
 crVars   == <<histIn, crashed, armed, fired>>
 
 Begin(idx) ==
@@ -266,12 +300,12 @@ Commit(idx) ==
     /\ viol' = IF ~insess THEN Append(viol, V(idx, "commit_outside_session", 0, 0, 0)) ELSE viol
     /\ stats' = Bump("commits")
     /\ spSeen' = StaleProj({}, lastRun, outLast, bpSkip)
-    /\ kfFw' = {}
+    /\ kfFw' = {} /\ lagFw' = {}
     /\ histIn' = IF crashed THEN histIn
                  ELSE Append(histIn, [n \in Ids |-> IF pend[n] # None THEN pend[n] ELSE inputs[n]])
     /\ crashed' = crashed
     /\ UNCHANGED <<prog, world, rdrVars, lastRun, running, tainted, outLast, outPrev,
-                   nested, topDone, bpSkip, kfHard, armed, fired>>
+                   nested, topDone, bpSkip, kfHard, ranAt, verAt, armed, fired>>
 
 Tracked(idx, t) ==
     /\ live' = live \cup {t}
@@ -287,7 +321,7 @@ DropTracked(idx, t) ==
 (* the inputs committed when the reader's tracked engine was handed out.   *)
 Query(idx, t, n, v) ==
     /\ LET want == ValAt(t)[n]
-           label == IF v # want THEN KfOfUser(n) ELSE ""
+           label == IF v # want THEN KfOfUser(n, ValNow) ELSE ""
        IN /\ viol' = IF armed # None /\ fired
                      THEN Append(viol, V(idx, "panic_swallowed", n, 0, 0))
                      ELSE IF v # want /\ Judged(snap[t])
@@ -303,7 +337,9 @@ Query(idx, t, n, v) ==
     /\ bpSkip' = IF n \in topDone THEN bpSkip \cup {n} ELSE bpSkip
     /\ topDone' = {}
     /\ spSeen' = spSeen \cup StaleProj(ran, lastRun, outLast, bpSkip')
-    /\ UNCHANGED <<prog, sessVars, world, rdrVars, runVars, nested, kfFw, kfHard, crVars>>
+    /\ verAt' = [verAt EXCEPT ![n] = idx]
+    /\ lagFw' = IF v # ValAt(t)[n] /\ KfTfcLag(n, ValNow) THEN lagFw \cup LagFirewalls(n, ValNow) ELSE lagFw
+    /\ UNCHANGED <<prog, sessVars, world, rdrVars, runVars, nested, kfFw, kfHard, ranAt, crVars>>
 
 (* C02: one query key is never executed by two executors at once.          *)
 Enter(idx, n) ==
@@ -311,7 +347,7 @@ Enter(idx, n) ==
     /\ viol' = IF n \in running THEN Append(viol, V(idx, "overlap", n, 0, 0)) ELSE viol
     /\ nested' = IF running # {} THEN nested \cup {n} ELSE nested \ {n}
     /\ UNCHANGED <<prog, sessVars, world, rdrVars, lastRun, ran, tainted,
-                   outLast, outPrev, kfTaint, topDone, bpSkip, spSeen, kfFw, kfHard, stats, crVars>>
+                   outLast, outPrev, kfTaint, topDone, bpSkip, spSeen, kfFw, kfHard, lagFw, ranAt, verAt, stats, crVars>>
 
 ReadsOf(n) == lastRun[n].reads
 
@@ -338,7 +374,8 @@ Read(idx, n, d, v) ==
         /\ kfFw' = IF bad /\ KfTfc(d, val)
                     THEN kfFw \cup (TransDeps(d) \cap PendingFirewalls(val)) ELSE kfFw
         /\ stats' = Bump("reads")
-        /\ UNCHANGED <<prog, sessVars, world, rdrVars, runVars, nested, topDone, bpSkip, spSeen, kfHard, crVars>>
+        /\ verAt' = [verAt EXCEPT ![d] = idx]
+        /\ UNCHANGED <<prog, sessVars, world, rdrVars, runVars, nested, topDone, bpSkip, spSeen, kfHard, lagFw, ranAt, crVars>>
 
 (* A complete executor run of a non-external node.                         *)
 ExecNormal(idx, n, reads, out) ==
@@ -370,7 +407,9 @@ ExecNormal(idx, n, reads, out) ==
                                   !.justified = @ + (IF lastRun[n].has THEN 1 ELSE 0)]
         \* the run consumed a stale value (marked by Read) or not
         /\ kfHard' = [kfHard EXCEPT ![n] = IF BadReads(reads, val) # {} THEN kfTaint[n] ELSE ""]
-        /\ UNCHANGED <<prog, sessVars, world, rdrVars, kfTaint, nested, kfFw, crVars>>
+        /\ ranAt' = [ranAt EXCEPT ![n] = idx]
+        /\ verAt' = [verAt EXCEPT ![n] = idx]
+        /\ UNCHANGED <<prog, sessVars, world, rdrVars, kfTaint, nested, kfFw, lagFw, crVars>>
 
 (* C03: an external-input executor runs only on first demand or refresh.   *)
 ExecExternal(idx, n, out) ==
@@ -427,6 +466,7 @@ Crash(idx) ==
     /\ outLast' = NoneFn /\ outPrev' = NoneFn
     /\ kfTaint' = [n \in Ids |-> ""] /\ kfHard' = [n \in Ids |-> ""]
     /\ nested' = {} /\ topDone' = {} /\ bpSkip' = {} /\ spSeen' = {} /\ kfFw' = {}
+    /\ ranAt' = [n \in Ids |-> 0] /\ verAt' = [n \in Ids |-> 0] /\ lagFw' = {}
     /\ stats' = Bump("restarts")
     /\ UNCHANGED <<prog, inputs, world, epoch, snap, viol>>
 
